@@ -68,10 +68,7 @@ func VerifC19_Snippet() {
 	}
 
 	logger := zzLogger{}
-	c := &updater{
-		options: &convtypes.ConverterOptions{DisableKeywords: keywords, Logger: logger},
-		logger:  logger,
-	}
+	c := NewUpdater(nil, &convtypes.ConverterOptions{DisableKeywords: keywords, Logger: logger}).(*updater)
 	mapper := NewMapBuilder(logger, map[string]string{}).NewMapper()
 	src := &Source{Namespace: "default", Name: "ing1", Type: convtypes.ResourceIngress}
 	mapper.AddAnnotations(src, hatypes.CreatePathLink("/", hatypes.MatchBegin), map[string]string{
